@@ -490,12 +490,15 @@ def r_var_rows_rewritten(rule, root=None):
         if not ws:
             # an explicit element loop is the same thing
             loops = [f for f in A.find(fn["body"], "For") if "data" in str(A.ftxt(f["iter"]))]
-            if loops and not (A.enclosing_conds(fn["body"], loops[0]) or []):
+            lenchk = re.compile(r"!?\(?(?:\w+\.len\(\)[!=]=data\.len\(\)|data\.len\(\)[!=]=\w+\.len\(\))\)?")
+            other = [c for c in (A.enclosing_conds(fn["body"], loops[0]) or []) if not lenchk.fullmatch(c.replace(" ", "")) and not c.replace(" ", "").lstrip("!(").startswith(("let", "match"))] if loops else []
+            if loops and not other:
                 rule.ok("ShapeBulkEval::%s writes every element of the row (loop)" % name, file=SHAPE, line=fn["ln"])
             else:
                 rule.bad("%s|write" % name, "ShapeBulkEval::%s must overwrite the whole variable row it is handed" % name, A.where(SHAPE, fn))
             continue
-        conds = [c for c in (A.enclosing_conds(fn["body"], ws[0]) or []) if not c.replace(" ", "").lstrip("!(").startswith(("let", "match"))]
+        lenchk = re.compile(r"!?\(?(?:\w+\.len\(\)[!=]=data\.len\(\)|data\.len\(\)[!=]=\w+\.len\(\))\)?")
+        conds = [c for c in (A.enclosing_conds(fn["body"], ws[0]) or []) if not c.replace(" ", "").lstrip("!(").startswith(("let", "match")) and not lenchk.fullmatch(c.replace(" ", ""))]
         if conds:
             rule.bad("%s|conditional" % name, "ShapeBulkEval::%s rewrites the variable row only under `%s`: the row is recycled scratch, and a stale interior (an earlier array-valued variable, another shape's axis samples, +0.0 padding where -0.0 is wanted) passes any test that looks at a few elements" % (name, conds[-1][:80]), A.where(SHAPE, ws[0]))
         else:
